@@ -16,12 +16,18 @@ pub mod config;
 pub mod dbm;
 #[doc(hidden)]
 mod errors;
+#[cfg(feature = "verif-hooks")]
+pub mod extended_appointment;
+#[cfg(not(feature = "verif-hooks"))]
 mod extended_appointment;
 pub mod gatekeeper;
 pub mod responder;
 #[doc(hidden)]
 mod rpc_errors;
 pub mod tls;
+#[cfg(feature = "verif-hooks")]
+pub mod tx_index;
+#[cfg(not(feature = "verif-hooks"))]
 mod tx_index;
 pub mod watcher;
 
